@@ -634,14 +634,18 @@ func (pConn *PFCPConn) handleSessionReportResponse(msg message.Message) error {
 
 		logger.PfcpLog.Warnln("context not found, deleting session locally")
 
-		pConn.RemoveSession(sessItem)
-
+		// Take the rules out of the datapath first, as a Session Deletion does. Releasing
+		// the session's UE address and TEIDs before that let a session that another
+		// association was establishing at that moment receive the address while the old
+		// rules were still installed; the delete then removed the new session's entry.
 		cause := upf.SendMsgToUPF(
 			upfMsgTypeDel, sessItem.PacketForwardingRules, PacketForwardingRules{})
 		if cause == ie.CauseRequestRejected {
 			return errProcess(
 				ErrOperationFailedWithParam("delete session from datapath", "seid", seid))
 		}
+
+		pConn.RemoveSession(sessItem)
 
 		return nil
 	}
